@@ -18,6 +18,7 @@ import (
 	"os"
 	"path/filepath"
 	"regexp"
+	"sort"
 	"strings"
 
 	"github.com/DavidGamba/go-getoptions/internal/help"
@@ -369,11 +370,9 @@ func (gopt *GetOpt) Parse(args []string) ([]string, error) {
 		// If the help is called, don't check for required options since the program wont run.
 		if gopt.finalNode.HelpCommandName == "" || !gopt.Called(gopt.finalNode.HelpCommandName) {
 			// Validate required options
-			for _, option := range node.ChildOptions {
-				err := option.CheckRequired()
-				if err != nil {
-					return nil, fmt.Errorf("%w%s", ErrorParsing, err.Error())
-				}
+			err := checkRequired(node)
+			if err != nil {
+				return nil, err
 			}
 		}
 	}
@@ -401,6 +400,23 @@ func (gopt *GetOpt) Parse(args []string) ([]string, error) {
 	return remaining, nil
 }
 
+// checkRequired - Validates the required options of a node in sorted name order so
+// that, when several are missing, the one reported does not depend on map iteration order.
+func checkRequired(node *programTree) error {
+	names := make([]string, 0, len(node.ChildOptions))
+	for name := range node.ChildOptions {
+		names = append(names, name)
+	}
+	sort.Strings(names)
+	for _, name := range names {
+		err := node.ChildOptions[name].CheckRequired()
+		if err != nil {
+			return fmt.Errorf("%w%s", ErrorParsing, err.Error())
+		}
+	}
+	return nil
+}
+
 // Dispatch - Handles calling commands and subcommands after the call to Parse.
 func (gopt *GetOpt) Dispatch(ctx context.Context, remaining []string) error {
 	if gopt.finalNode.HelpCommandName != "" && gopt.Called(gopt.finalNode.HelpCommandName) {
@@ -408,11 +424,9 @@ func (gopt *GetOpt) Dispatch(ctx context.Context, remaining []string) error {
 		return ErrorHelpCalled
 	}
 	// Validate required options
-	for _, option := range gopt.finalNode.ChildOptions {
-		err := option.CheckRequired()
-		if err != nil {
-			return fmt.Errorf("%w%s", ErrorParsing, err.Error())
-		}
+	err := checkRequired(gopt.finalNode)
+	if err != nil {
+		return err
 	}
 	if gopt.finalNode.CommandFn != nil {
 		return gopt.finalNode.CommandFn(ctx, &GetOpt{gopt.finalNode, gopt.finalNode}, remaining)
